@@ -19,6 +19,15 @@ namespace C07
 /-- `to_text()` is the RFC 5.3 recomposition of the components `toRef` names -/
 theorem toText_eq_recompose (u : URL) : u.toText = recompose u.toRef := toText_eq_recompose' u
 
+/-- `path_parts` and the path text determine each other (`split('/')` / `'/'.join`): the model's
+    `URL.ofRelRef` (which splits) and `toRef` (which joins) read the same path -/
+theorem path_text_roundtrip (p : Str) (segs : List Str) (hne : segs ≠ []) (h : ∀ s ∈ segs, NoSlash s) :
+    joinSlash (splitSlash p) = p ∧ splitSlash (joinSlash segs) = segs ∧ (∀ s ∈ splitSlash p, NoSlash s) :=
+  ⟨joinSlash_splitSlash p, splitSlash_joinSlash segs hne h, splitSlash_noSlash p⟩
+
+example : ["".toList, "a".toList, "".toList, "b;p".toList] ≠ [] ∧
+    ∀ s ∈ ["".toList, "a".toList, "".toList, "b;p".toList], NoSlash s := by decide
+
 /-- **Bridge** (RFC 5.2.4 vs the code's segment stack).  For every rooted list of slash-free segments,
     removing dot segments from its text with the RFC's input/output-buffer algorithm gives the text of
     `resolve_path_parts` applied to the list. -/
@@ -78,12 +87,9 @@ def exBase : URL := URL.ofComponents (some "http".toList) true "u".toList [] "a"
   "/b/c/d;p".toList (some "q".toList) none
 def exRef : Ref := ⟨none, none, ".././/g/.".toList, some "y".toList, some [] ⟩
 
-theorem exBase_abs : AbsBase exBase :=
-  ⟨by decide, ⟨_, rfl⟩, by decide, by decide, by decide⟩
-
 example : AbsBase exBase ∧ RelRef exRef ∧ (exRef.path ≠ [] ∨ DotFree exBase.parts) ∧
     ¬ (exRef.path = [] ∧ exRef.query = some [] ∧ exBase.query ≠ []) :=
-  ⟨exBase_abs, ⟨rfl, rfl⟩, Or.inl (by decide), by decide⟩
+  ⟨⟨by decide, ⟨_, rfl⟩, by decide, by decide, by decide⟩, ⟨rfl, rfl⟩, Or.inl (by decide), by decide⟩
 
 example : recompose (resolve exBase.toRef exRef) = "http://u@a:81/b//g/?y#".toList := by
   rw [toRef_rooted exBase _ (by decide) rfl]; decide
@@ -127,6 +133,11 @@ theorem navigate_empty_query_defect :
   revert hq
   decide
 
+/-- why: `URL('?')` and `URL('')` are the same object — in the excluded region `navigate` does what RFC 5.2
+    prescribes for the same reference without its `?` (this is the known finding's trigger predicate) -/
+theorem empty_query_parses_as_no_query (r : Ref) :
+    URL.ofRelRef { r with query := some [] } = URL.ofRelRef { r with query := none } := rfl
+
 /-- a reference that has its own scheme and host replaces the base entirely -/
 theorem navigate_absolute_replaces (b dest : URL) (hs : dest.scheme ≠ []) (hh : dest.host ≠ []) :
     b.navigate dest = dest := by
@@ -144,8 +155,13 @@ theorem absolute_is_rfc_target (base : Ref) (dest : URL) (segs : List Str) (hs :
   rw [removeDotSegments_flat segs hns, process_of_dotFree segs hdf]
   simp
 
-example : (URL.ofComponents (some "http".toList) true [] [] "x".toList false 0 "/p/q".toList none none).parts
-    = [] :: ["p".toList, "q".toList] := by decide
+/-- an absolute reference satisfying the hypotheses: `http://x/p/q` -/
+def exAbs : URL := URL.ofComponents (some "http".toList) true [] [] "x".toList false 0 "/p/q".toList none none
+
+example : exAbs.scheme ≠ [] ∧ exAbs.host ≠ [] ∧ exAbs.parts = [] :: ["p".toList, "q".toList] ∧
+    (∀ s ∈ ["p".toList, "q".toList], NoSlash s) ∧ DotFree ["p".toList, "q".toList] := by decide
+
+example : exBase.navigate exAbs = exAbs := navigate_absolute_replaces _ _ (by decide) (by decide)
 
 /-- the result of `resolve_path_parts` contains no '.' or '..' segment, whatever the input -/
 theorem resolve_dot_free (parts : List Str) : DotFree (resolvePathParts parts) :=
@@ -160,6 +176,9 @@ theorem result_dot_free (b dest : URL) (h : ¬ (dest.scheme ≠ [] ∧ dest.host
   unfold URL.normalize
   simp only [if_true]
   exact resolvePathParts_dotFree _
+
+example : ¬ ((URL.ofRelRef exRef).scheme ≠ [] ∧ (URL.ofRelRef exRef).host ≠ []) := by decide
+example : (exBase.navigate (URL.ofRelRef exRef)).toText = "http://u@a:81/b//g/?y".toList := by decide
 
 /-- `resolve_path_parts` never climbs above the root: a rooted list stays rooted (the root marker `''`
     is never popped), for any number of '..' -/
